@@ -80,6 +80,42 @@ CLAIMED["C19"] = ("model_checking",
   "Trusted: TLC, harness/project.go (Unix, Date, Clock). int32 day counts are strided + random, not exhaustive.",
   "DESIGN.md section 6 C19")
 
+CLAIMED["C05"] = ("model_checking",
+  "TLA+ type-soundness table (MC_Build: Compatible / Fits / Rep / Footprint coherent on every schema-kind x Go-kind pair) model-checked; every pair of the real 32 x 57 matrix built with Schema.Codec and, if built, decoded into a canary-surrounded field; TLC judges canaries and the stored value with GoModel!Rep (Trace_Codec!FailsBuild)",
+  "The matrix of (schema type, Go kind) pairs is enumerated completely (14 Avro types with parameters x every Go kind incl. unsigned, complex, byte arrays of 0/1/3/4/8/16, maps with non-string keys, pointers, interface, chan, func, alone / behind pointers / in slices and maps). A pair either fails to build or each decode of independently written valid and damaged encodings (extreme longs included) leaves every canary byte, sibling field and neighbouring array element intact and the destination holding the datum as a value of its own type (bools 0/1 only); out-of-width integers must be errors.",
+  "Trusted: TLC, harness/project.go; canary bytes are the sensor for stray stores (memory safety in general is outside TLA+). Values per pair are sampled.",
+  "DESIGN.md section 6 C05")
+CLAIMED["C10"] = ("model_checking",
+  "TLA+ Bank module (arenas, growth, string store, pool, close/reuse; Disjoint, ZeroAtBirth, IntactUntilClosed) model-checked; recorded bank operation sequences and retained-record reads trace-validated by the Trace_Bank state machine (live set + expected content hashes)",
+  "TLC checks the bank design exhaustively (2 banks x 2 types, arenas growing 1-2-4, 8 operations). Real sequences of 60 (400) operations over up to 4 open banks through the public surface are replayed: every allocation must be zero, address ranges (rank-compressed) of live allocations of unclosed banks pairwise disjoint, contents unchanged except by their owner; and ReadFile runs with every record retained and banks closed in a seeded order while reading continues are re-projected at checkpoints and compared with the values written.",
+  "Trusted: TLC, harness/project.go, unsafe reads of addresses and content hashes in harness/bank.go.",
+  "DESIGN.md section 6 C10")
+CLAIMED["C11"] = ("exploration",
+  "TLA+ Heap model of the allocation mechanisms (typed vs untyped words, GC, reuse; GCSafe holds for the mechanisms in use and is violated for the untyped-word mechanism) + decode/encode under forced collections in child processes with GODEBUG=clobberfree=1, recorded values trace-validated by TLC (Trace_Codec!FailsGC, FailsGCWrite)",
+  "Exploration with the Go runtime as sensor: 9 target shapes (maps and slices behind pointers, maps of maps / slices / pointers, same-size types with different pointer layouts in one record, pointers to registered types, a registered codec that forces collections in the middle of map iteration and between map entries) x 3 codecs x block layouts; collections + size-class churn in the callback, after the read, and inside decoding through the hook in ResourceBank.Alloc; the collector overwrites what it frees, so an untracked value is destroyed at the next cycle; TLC compares every re-projected value with the input and decodes what was written during concurrent collections.",
+  "Trusted: the Go runtime's collector as sensor (TLA+ cannot observe it); TLC; harness/project.go. Level claimed: exploration.",
+  "DESIGN.md section 6 C11")
+CLAIMED["C12"] = ("model_checking",
+  "PlusCal model of the three locks and the maps they protect (MutualExclusion, LookupSeesLatest, TzCanonical) model-checked; gate enforcement through hooks inside the critical sections, -race stress with sequenced section events replayed against the lock model, and per-goroutine results judged by the sequential reference (Trace_Conc)",
+  "TLC checks the lock design for 3 goroutines x 1 (2 thorough) operations. On the real code: (1) for each ordered pair of sections of one lock a goroutine is parked inside (blocked in the hook) and a second is sent to the other section; an arrival that the model forbids is a violation; (2) 10 (40) rounds of 12-32 goroutines re-parsing timestamps with shared zone offsets, distinct results judged; (3) 3 (20) race-detector runs of 8-16 goroutines with mixed workloads (shared codec, codec construction, registration, whole-file reads, banks closed on other goroutines): section enter/leave events sequenced inside the sections must be a behaviour of the lock model, every shared-codec round trip and timestamp must equal the sequential reference, and a race report whose access stack runs through the library is a violation.",
+  "Trusted: TLC, the Go race detector as sensor, harness/project.go. Interleavings are enforced at hook granularity and explored by stress, not enumerated at instruction level.",
+  "DESIGN.md section 6 C12")
+CLAIMED["C14"] = ("model_checking",
+  "TLA+ SchemaJSON (abstract JSON tree <-> Schema) model-checked: Parse(v(Serialise(s))) = s for every schema of the universe and every variation (MC_Schema); TLC-chosen schemas rendered as text in random member orders/layouts/with unknown attributes, parsed by SchemaFromString, marshalled and read back by encoding/json; compared by TLC (Trace_Schema)",
+  "For each of 28 (49) schemas (primitives, logical types on primitives and fixed, namespaces, enum, fixed, unions, nested records/collections, named references) 8 (60) renderings are parsed by the real parser; the parsed Schema must equal the schema TLC chose (type, name, namespace, logical type, fields in order, items, values, size, symbols, branches in order), its Marshal output must be valid JSON that denotes the same schema, and every proper prefix / trailing data / syntax damage of the canonical documents must be an error.",
+  "Trusted: TLC, encoding/json as independent reader, harness renderer.",
+  "DESIGN.md section 6 C14")
+CLAIMED["C15"] = ("model_checking",
+  "TLA+ SchemaGen!SchemaOf (the documented mapping as a total function, strict/natural modes for the kinds the statement leaves open) model-checked over all types of wrapper depth 2 (MC_SchemaGen); SchemaForType on compile-time and generated types trace-validated: result in {SchemaOf strict, natural}, deterministic, ValidAvro, codec built-or-error (Trace_Schema!FailsGen)",
+  "29 compile-time types (all tag combinations, unexported, embedded value and pointer, four self-referential shapes in a child process, unsupported kinds, named primitives, registered types before and after RegisterSchema) and 250 (5000) seeded run-time types with odd kinds spliced in: outcome error exactly for inexpressible types, otherwise the record of the exported non-excluded fields in order under their JSON names typed by the mapping, equal for value and pointer arguments, no nested or repeated union branch, named types defined once, Schema.Codec builds or errors, Marshal gives valid JSON.",
+  "Trusted: TLC, harness/project.go (type facts incl. the namespace rule). One struct type used in several positions is a listed known finding.",
+  "DESIGN.md section 6 C15")
+CLAIMED["C20"] = ("model_checking",
+  "TLA+ registry state machine (MC_Registry: latest registration governs every occurrence and nothing else, earlier results unchanged) model-checked; registration histories with logging codecs on the real registries trace-validated: generated schema = SchemaGen!SchemaOf with the latest registered schemas, every logged codec call names the latest builder, calls per type = occurrences in the value, values round-trip (Trace_Schema!FailsReg)",
+  "Histories (unregistered; registered; re-registered codecs; schema re-registered after schemas were generated; seeded further re-registrations) x holder values placing a named-string, a struct and a named-slice custom type as field, pointer, slice element, map value, omitempty (nullable union), nested field, slice of pointers, next to an unregistered named type. The custom codecs mark their bytes, so a built-in codec taking over an occurrence changes both the log and the wire.",
+  "Trusted: TLC, harness/project.go, the logging codecs (harness code).",
+  "DESIGN.md section 6 C20")
+
 NOT_APPLICABLE = {}
 
 def main():
